@@ -127,6 +127,9 @@ PROPS["C05"] = {
           ["SrtpContext::unprotect_rtcp", "SrtpContext::build_gcm_rtcp_nonce"],
           "Err => crypto state unchanged (the SRTCP index advances only on an authenticated packet); Ok => AEAD opens with AAD = header(8)||index word, nonce = RFC 7714 9.1, tag = 16 bytes before the index",
           bound="packet = 32 bytes (8 hdr + 4 ct + 16 tag + 4 index), symbolic content and state, one concrete key; aes-gcm substitute", timeout=600),
+        K("unprotect_rtcp GCM: frame + AEAD open (28 B, empty body)", "c05_unprotect_rtcp_gcm_28", "quick", "bounded",
+          ["SrtpContext::unprotect_rtcp", "SrtpContext::build_gcm_rtcp_nonce"],
+          "same contract on the smallest GCM packet", bound="packet = 28 bytes (8 hdr + 0 ct + 16 tag + 4 index); aes-gcm substitute", timeout=600),
         K("unprotect_rtcp short input (NULL, 0 B)", "c05_unprotect_rtcp_short_null_0", "quick", "bounded", ["SrtpContext::unprotect_rtcp"],
           "Err(PacketTooShort), state unchanged", bound="length 0, profile NullCipherHmac"),
         K("unprotect_rtcp short input (SHA1_32, 7 B)", "c05_unprotect_rtcp_short_sha32_7", "quick", "bounded", ["SrtpContext::unprotect_rtcp"],
